@@ -1,6 +1,6 @@
 (* Properties/C11.v — Rust keywords and naming conventions never reach the wire or break the build.
    The keyword table is the one TRANSLATED from codegen/shared.rs on this run. *)
-From GC Require Import Base Rust Heck Naming NamingProofs Schema Query Codegen StrategyAll InvariantAll.
+From GC Require Import Base Rust Heck Naming NamingProofs Schema Query Codegen StrategyAll InvariantAll WireAll.
 From GC.Gen Require Import Keywords.
 
 (* finite facts about the translated table, by computation (bound = table length) *)
@@ -77,3 +77,26 @@ Theorem C11_no_keyword_member_anywhere : forall s frs o fuel c sels sid t p c',
   fields_all not_keyword c -> calc s frs o fuel c sels sid t p = Some c' -> fields_all not_keyword c'.
 Proof. exact (no_keyword_member_anywhere C11_table_complete C11_table_escape_closed). Qed.
 Print Assumptions C11_no_keyword_member_anywhere.
+
+(* ---------- for ALL programs (WireAll.v): seen through the keys serde reads and writes (`wire_view`: every
+   non-flattened member named by its wire key), the expansion of any selection is the expansion produced by a
+   renderer that is blind to the Rust identifier at every selected field, and the key of each such field is its
+   response key: keyword escaping and case conversion never reach the wire, at any position of any program.
+   (Members of tagged variants carry their own rename, covered per position by C11_wire_key_fields and the token-level correspondence.) *)
+Theorem C11_wire_view_of_expansion : forall s frs o fuel c sels sid t p,
+  calcG s frs o (wire_render o) (o_other_variant o) fuel (cmap wire_view c) sels sid t p =
+  option_map (cmap wire_view) (calc s frs o fuel c sels sid t p).
+Proof. exact wire_view_of_expansion. Qed.
+Theorem C11_wire_render_ignores_identifier : forall o n b b' ft quals d bx,
+  wire_render o (Some n) b ft quals false d bx = wire_render o (Some n) b' ft quals false d bx.
+Proof. exact wire_render_ignores_identifier. Qed.
+Theorem C11_wire_render_key : forall o n b ft quals d bx f,
+  wire_render o (Some n) b ft quals false d bx = Some f -> member_key f = n /\ f_rename f = None.
+Proof. exact wire_render_key. Qed.
+Theorem C11_render_field_wire_key : forall o n b ft quals d bx f,
+  render_field o (Some n) b ft quals false d bx = Some f -> member_key f = n.
+Proof. exact render_field_wire_key. Qed.
+Print Assumptions C11_wire_view_of_expansion.
+Print Assumptions C11_wire_render_ignores_identifier.
+Print Assumptions C11_wire_render_key.
+Print Assumptions C11_render_field_wire_key.
